@@ -164,6 +164,14 @@ def correspond(ctx):
                                  f"submitted task ({v['env']}): job directory {v['jobdir']} / identifier {v['identifier'][:16]}… / params.json {str(v['params_identifier'])[:16]}…, "
                                  f"expected jobs/{want[:40]}… (identifier before submission)", {"graph": case["graph"], "variant": v})
                 break
+        # the same task with the same initialisation tasks, submitted at once or after it was used in-process / written first
+        hs = [h for h in rec.get("histories", []) if "identifier" in h]
+        for h in rec.get("histories", []):
+            ctx.count("pre_submission_history", h["env"] + (":skipped" if "skipped" in h else ""))
+        if len({(h["identifier"], h["relpath"]) for h in hs}) > 1:
+            ctx.monitor_fail("identifier-depends-on-history-before-submission",
+                             "the same task submitted with the same initialisation tasks received different identifiers / job directories: "
+                             + "; ".join(f"{h['env']} -> {h['relpath'][-20:]}" for h in hs), {"graph": case["graph"], "histories": hs})
     errs = sum(1 for r in base if r["error"])
     if errs > len(base) // 10:
         raise RuntimeError(f"{errs}/{len(base)} generated cases could not be built: {next(r['error'] for r in base if r['error'])}")
@@ -204,8 +212,28 @@ WITNESS_LIB = {"pkg": "xvlib_c01w", "enums": [], "classes": [
               {"name": "v", "decl": "param", "ty": "int", "optional": False}]}]}
 
 
+WITNESS_LIB_SUBMIT = {"pkg": "xvlib_c01ws", "enums": [], "classes": [
+    {"name": "LW", "xpmid": "xvlib_c01ws.lw", "parent": None, "kind": "light", "deprecated": False,
+     "args": [{"name": "v", "decl": "param", "ty": "int", "optional": False}]},
+    {"name": "T", "xpmid": "xvlib_c01ws.t", "parent": None, "kind": "task", "deprecated": False,
+     "args": [{"name": "v", "decl": "param", "ty": "int", "optional": False}]}]}
+
+
 def run_witness(ctx, finding):
     w = finding.get("witness")
+    if w and w.get("kind") == "presubmit-history":
+        g = {"nodes": [{"cls": "T", "values": [["v", 1]], "meta": None, "pre": [], "init": [], "task": None}]}
+        rec = identlib.run_submit(ctx, [WITNESS_LIB_SUBMIT], [{"lib": 0, "graph": g}], shards=1)[0]
+        if rec["error"]:
+            raise RuntimeError(f"witness F38 cannot run: {rec['error']}")
+        hs = [h for h in rec.get("histories", []) if "identifier" in h]
+        if len(hs) < 3:
+            raise RuntimeError(f"witness F38 cannot run: {rec.get('histories')}")
+        if len({(h["identifier"], h["relpath"]) for h in hs}) > 1:
+            ctx.monitor_fail("identifier-depends-on-history-before-submission",
+                             "T(v=1) submitted with one initialisation task: " + "; ".join(f"{h['env']} -> {h['relpath'][-20:]}" for h in hs),
+                             {"witness": "presubmit-history", "histories": hs})
+        return
     if not w or w.get("kind") != "sealed-cycle":
         return
     g = {"nodes": [{"cls": "N", "values": [["v", i], ["nxt", {"r": (i + 1) % 3}]], "meta": None, "pre": [], "init": [], "task": None} for i in range(3)]}
